@@ -144,6 +144,7 @@ class Stepped:
         self.free = False              # free-run: no more stops
         self.exc = None
         self.quit = False
+        self._last = None
         self.thread = threading.Thread(target=self._main, name="stepped-" + name, daemon=True)
         self.thread.start()
 
@@ -156,7 +157,10 @@ class Stepped:
     def _local(self, frame, event, arg):
         if event == "line" and not self.free:
             label = self.stops.get((frame.f_code, frame.f_lineno))
+            if label is not None and self._last == (id(frame), label):
+                label = None               # a statement spanning several lines comes back to its first line for the call itself
             if label is not None:
+                self._last = (id(frame), label)
                 with self.cv:
                     if self.state == "blocked":       # got the lock after all: the controller has given up on the schedule by now
                         self.state = "running"
